@@ -1,13 +1,32 @@
 (* C03 - Step-limited (LM) move duration is the first tick that exhausts the step budget.  Statements only.
    What is proved: an O(1) checker is equivalent, for all integers, to the tick-by-tick specification (Spec/LmSpec.v), plus the
    consequences and the "cannot move" cases.  Every output of calculate_lm / moveTimeLM that the harness generates is decided
-   by that checker inside Coq.  No theorem is stated about the text of calculate_lm (mpmath sqrt / ceil): see DESIGN.md. *)
-From Plotink Require Import Base.Prelude Spec.Firmware Spec.LmSpec Spec.LmCheck Proofs.LmProofs.
+   by that checker inside Coq.  C03_model_correct: the exact-arithmetic model of calculate_lm (Model/LmModel.v: the branch
+   structure, the reversal tick, the quadratic solve with both ceilings and the discarding of roots, statement by statement, with
+   mpmath read as exact arithmetic) returns the specified answer for every request in the property's domain, for all integers; the
+   implementation is compared with that model on every generated case. *)
+From Plotink Require Import Base.Prelude Spec.Firmware Spec.LmSpec Spec.LmCheck Model.LmModel Proofs.LmProofs Proofs.LmModelProofs.
 Open Scope Z_scope.
 
 Theorem C03_checker_iff_spec : forall steps rate accel accum T p c,
   lm_check steps rate accel accum T p c = true <-> lm_spec steps rate accel accum T p c.
 Proof. exact lm_check_iff_spec. Qed.
+
+(* the model of calculate_lm: whenever its own answer keeps the request inside the property's domain (start accumulator in
+   [0, 2^31) or clear, per-tick |rate| <= 2^31-1 through the reported duration) that answer is the specified one *)
+Theorem C03_model_correct : forall steps rate accel accum,
+  let '(T, p, c) := lm_model steps rate accel accum in
+  lm_domain steps rate accel accum T = true -> lm_check steps rate accel accum T p c = true.
+Proof. exact lm_model_correct. Qed.
+Corollary C03_model_meets_spec : forall steps rate accel accum T p c,
+  lm_model steps rate accel accum = (T, p, c) -> lm_domain steps rate accel accum T = true -> lm_spec steps rate accel accum T p c.
+Proof. intros * E D. apply C03_checker_iff_spec. pose proof (lm_model_correct steps rate accel accum) as H. rewrite E in H. exact (H D). Qed.
+(* the hypothesis is met by concrete requests: a reversing move, an accelerating move, a legacy request *)
+Example C03_model_nonvacuous :
+  lm_model 1 9 (-1) (Some 0) = (18, -1, 2147483639) /\ lm_domain 1 9 (-1) (Some 0) 18 = true /\
+  lm_model 26 110000000 40000000 None = (51, 26, 1795425152) /\ lm_domain 26 110000000 40000000 None 51 = true /\
+  lm_model (-5) 1000000000 0 None = (11, -5, 1884901887) /\ lm_domain (-5) 1000000000 0 None 11 = true.
+Proof. vm_compute. repeat split; reflexivity. Qed.
 
 (* the number of steps taken through tick n, in closed form (one sign change of the rate at most), for every n *)
 Theorem C03_steps_closed_form : forall r0 a acc n, lm_steps r0 a acc n = csteps r0 a acc (Z.of_nat n).
@@ -31,6 +50,8 @@ Example C03_as_found_refuted :
 Proof. vm_compute. repeat split; reflexivity. Qed.
 
 Print Assumptions C03_checker_iff_spec.
+Print Assumptions C03_model_correct.
+Print Assumptions C03_model_meets_spec.
 Print Assumptions C03_steps_closed_form.
 Print Assumptions C03_consequence.
 Print Assumptions C03_invalid.
